@@ -223,6 +223,9 @@ def body(tier, seed, rep, only_prop=False, scale=1):
     for (line, meta), ans in zip(vl, drive([l for l, _ in vl])):
         f = fields(ans)
         rep.count("vpsc-model same=" + f["same"])
+        if f.get("pending") == "1":
+            rep.count("vpsc-model split-pending-at-exit(F1 signature)")
+            meta["model_pending"] = True
         payload = {"case": meta, "driver_line": line[:6000], "driver_answer": ans}
         if f["feasible"] == "fail":
             rep.model_fail = True
